@@ -785,6 +785,73 @@ def gen_arith():
             "def addCommandsValues (self_extrusionAmount self_feedRate direction : α)\n"
             "    (eAxis_current eAxis_homeOffset eAxis_offset eAxis_unitMultiplier : α) (eAxis_absoluteMode : Bool) :\n"
             "    α × α × α × α :=\n" + imp.block(stmts, "(%s, eAxis_current)" % ", ".join(outs), 1), ""]
+    # ExcludeRegionState.exitExcludedRegion: the commands appended after the pending ones —
+    # templates, the order of their numbers, the conditions on the Z move
+    import string as _string
+    st_tree = ast.parse(_src("ExcludeRegionState.py"))
+    f = _method(st_tree, "ExcludeRegionState", "exitExcludedRegion", ["cmd"])
+    body = [x for x in f.body if not (isinstance(x, ast.Expr) and isinstance(x.value, ast.Constant))]
+    start = [k for k, x in enumerate(body) if ast.unparse(x) == "returnCommands = self._processPendingCommands()"]
+    if len(start) != 1 or ast.unparse(body[-1]) != "return returnCommands" \
+            or ast.unparse(body[start[0] - 1]) != "self.excluding = False":
+        raise TranslateError("arith: shape of exitExcludedRegion")
+    ext = {"self.position.E_AXIS.nativeToLogical()": ("eLogical", "num"),
+           "self._exitCoordinate(position.Z_AXIS, lastPosition.Z_AXIS)": ("zExit", "num"),
+           "self._exitCoordinate(position.X_AXIS, lastPosition.X_AXIS)": ("xExit", "num"),
+           "self._exitCoordinate(position.Y_AXIS, lastPosition.Y_AXIS)": ("yExit", "num"),
+           "position.Z_AXIS.current": ("newZcur", "num"), "lastPosition.Z_AXIS.current": ("oldZcur", "num")}
+    imp = _Imp({"self_feedRate": "num", "self_feedRateUnitMultiplier": "num"}, ext)
+
+    def command(call):
+        """'TEMPLATE'.format(k=formatNumber(e), ...) -> Lean pair (template, numbers in template order)"""
+        if not (isinstance(call, ast.Call) and isinstance(call.func, ast.Attribute) and call.func.attr == "format"
+                and isinstance(call.func.value, ast.Constant) and isinstance(call.func.value.value, str)
+                and not call.args):
+            raise TranslateError("arith: exitExcludedRegion builds %s" % ast.unparse(call)[:80])
+        tpl = call.func.value.value
+        kws = {}
+        for kw in call.keywords:
+            if not (isinstance(kw.value, ast.Call) and ast.unparse(kw.value.func) == "formatNumber"
+                    and len(kw.value.args) == 1):
+                raise TranslateError("arith: exitExcludedRegion formats %s without formatNumber" % kw.arg)
+            kws[kw.arg] = imp.ex(kw.value.args[0])
+        order = [fld for (_t, fld, _f, _c) in _string.Formatter().parse(tpl) if fld]
+        if sorted(order) != sorted(kws):
+            raise TranslateError("arith: placeholders of %r" % tpl)
+        return "(%s, [%s])" % (lean_str(tpl), ", ".join(kws[k] for k in order))
+    lets, parts, cmdvars = [], [], set()
+    for x in body[start[0] + 1:-1]:
+        src = ast.unparse(x)
+        if src in ("position = self.position", "lastPosition = self.lastPosition") or src.startswith("self._logger."):
+            continue
+        if isinstance(x, ast.Assign) and len(x.targets) == 1 and isinstance(x.targets[0], ast.Name):
+            name = x.targets[0].id
+            if isinstance(x.value, ast.Call) and isinstance(x.value.func, ast.Attribute) and x.value.func.attr == "format":
+                lets.append("let %s : String × List α := %s" % (name, command(x.value)))
+                cmdvars.add(name)
+            else:
+                lets.append("let %s : α := %s" % (name, imp.ex(x.value)))
+                imp.env[name] = "num"
+            continue
+
+        def appended(y):
+            if not (isinstance(y, ast.Expr) and isinstance(y.value, ast.Call)
+                    and ast.unparse(y.value.func) == "returnCommands.append" and len(y.value.args) == 1):
+                raise TranslateError("arith: statement of exitExcludedRegion: %s" % ast.unparse(y)[:80])
+            a = y.value.args[0]
+            if isinstance(a, ast.Name) and a.id in cmdvars:
+                return a.id
+            return command(a)
+        if isinstance(x, ast.If) and not x.orelse and len(x.body) == 1:
+            parts.append("(if %s then [%s] else [])" % (imp.cond(x.test), appended(x.body[0])))
+        else:
+            parts.append("[%s]" % appended(x))
+    out += ["/-- `ExcludeRegionState.exitExcludedRegion`: what is appended after the pending commands — command",
+            "templates with their numbers in template order.  `eLogical`, `zExit`, `xExit`, `yExit`, `newZcur`, `oldZcur`",
+            "stand for `self.position.E_AXIS.nativeToLogical()`, `self._exitCoordinate(position.<A>_AXIS,",
+            "lastPosition.<A>_AXIS)` and the native Z of `position` / `lastPosition` (exact source texts). -/",
+            "def exitCommands (eLogical zExit xExit yExit newZcur oldZcur self_feedRate self_feedRateUnitMultiplier : α) :\n"
+            "    List (String × List α) :=\n  " + "\n  ".join(lets) + "\n  " + " ++\n    ".join(parts), ""]
     # RetractionState.combine(other, logger): the new extrusionAmount
     rs = ast.parse(_src("RetractionState.py"))
     f = _method(rs, "RetractionState", "combine", ["other", "logger"])
